@@ -17,7 +17,7 @@ class P(vlib.Prop):
             "a base-layout package shipping etc/passwd, etc/group, etc/os-release; links: busybox-style hard-linked applets in several directories, a symlink-only "
             "package of installed size 0, two packages without origin one of which replaces a package with one, prefix sibling directories, a `busybox` package "
             "whose manifest makes apko create unowned applet symlinks), variants accounts / path mutations / contents.build_repositories / extra build "
-            "repositories, budgets 0..n+1 (quick 72 builds, thorough ~250), each configuration also built without a layering block: judged by the same verified "
+            "repositories, budgets 0..n+1 (quick 80 builds, thorough 290), each configuration also built without a layering block: judged by the same verified "
             "validator with OWNERSHIP TAKEN FROM THE PACKAGES' OWN FILE LISTS (not from tarfs's Package()) and the groups of the real grouping on the packages of "
             "the image's installed database; flatten compared modulo the content of etc/apko.json; layer count against the budget; the ORDER of the build steps "
             "observed on the filesystem interface (installer, accounts, apko.json, path mutations, busybox links, SetRepositories, start of the walk) must be the "
